@@ -18,17 +18,30 @@ def replaceDefault (e : Node) (asg args : List Node) (sp : Span) (kind : IdentKi
   let (id, asg', args') ← getIdentUsed e asg args sp kind
   pure ((match id with | some n => tempIdent n | none => e), asg', args')
 
+/-- `is_literal_sum` -/
+def isLiteralSum : Node → Bool
+  | .lit .. => true
+  | .bin op l r _ => op == "+" && isLiteralSum l && isLiteralSum r
+  | _ => false
+
+/-- `Expr::undefined(DUMMY_SP)`: `void 0` -/
+def voidZero : Node :=
+  .unary "void" (.lit "NumericLiteral" "{\"value\":0.0,\"raw\":null}" "" Span.dummy) Span.dummy
+
 /-- `replace_expressions_in_expr` with `ExpandArrays::No` -/
 def replaceExprNoExpand (e : Node) (mode : IdentMode) (asg args : List Node) (sp : Span)
     (kind : IdentKind) : M (Node × List Node × List Node) :=
   match e with
-  | .lit .. => pure (e, asg, args ++ [.arg none e])                -- replace_literals: spread dropped
+  | .lit .. => pure (e, asg, args ++ [exprOrSpread e kind])
   | .ident .. =>
     match mode with
     | .replace => replaceDefault e asg args sp kind
     | .keep => pure (e, asg, args ++ [exprOrSpread e kind])
   | .bin op _ _ _ =>
-    if op != "+" then replaceDefault e asg args sp kind else pure (e, asg, args)   -- replace_binary
+    -- replace_binary: a sum of literals stays in place and is passed on; any other sum stays in place
+    if op != "+" then replaceDefault e asg args sp kind
+    else if isLiteralSum e then pure (e, asg, args ++ [exprOrSpread e kind])
+    else pure (e, asg, args)
   | _ => replaceDefault e asg args sp kind
 
 /-- `replace_expressions_in_expr_or_spread` with `ExpandArrays::No` -/
@@ -41,12 +54,19 @@ def replaceArgNoExpand (a : Node) (mode : IdentMode) (asg args : List Node) (sp 
     pure (.arg spread e', asg', args')
   | other => pure (other, asg, args)
 
+/-- one element of an array literal handed to `apply`: a hole is passed on as `undefined` -/
+def replaceElem (a : Node) (mode : IdentMode) (asg args : List Node) (sp : Span) :
+    M (Node × List Node × List Node) :=
+  match a with
+  | .arg .. => replaceArgNoExpand a mode asg args sp
+  | hole => pure (hole, asg, args ++ [.arg none voidZero])
+
 /-- the `for_each` over array elements in the `ExpandArrays::Yes` arm (holes are skipped) -/
 def replaceElems (mode : IdentMode) (sp : Span) :
     List Node → List Node → List Node → M (List Node × List Node × List Node)
   | [], asg, args => pure ([], asg, args)
   | x :: xs, asg, args => do
-    let (x', asg1, args1) ← replaceArgNoExpand x mode asg args sp
+    let (x', asg1, args1) ← replaceElem x mode asg args sp
     let (xs', asg2, args2) ← replaceElems mode sp xs asg1 args1
     pure (x' :: xs', asg2, args2)
 
@@ -84,7 +104,7 @@ def argExpr : Node → Node
   | n => n
 
 /-- `must_replace_binary_expression` -/
-def mustReplaceBinary (args : List Node) : Bool := args.any fun a => !(argExpr a).isLit
+def mustReplaceBinary (args : List Node) : Bool := args.any fun a => !isLiteralSum (argExpr a)
 
 /-- `to_dd_binary_expr` (on an `Expr::Bin`; anything else is not modified) -/
 def toDdBinary (cfg : Config) (e : Node) : M (Option Node) :=
@@ -105,6 +125,40 @@ def isPatternTarget : Node → Bool
   | .other k _ _ _ => k == "ArrayPattern" || k == "ObjectPattern" || k == "Invalid"
   | _ => false
 
+/-- `is_simple_target_part` -/
+def isSimpleTargetPart : Node → Bool
+  | .ident .. => true
+  | .lit .. => true
+  | .other "ThisExpression" .. => true
+  | _ => false
+
+/-- `hoist_target_part`: `(t = e)` for the target, `t` for reading back -/
+def hoistTargetPart (e : Node) (sp : Span) : M (Node × Node) := do
+  let (id, asg) ← getTemporalIdent e [] sp .expr
+  match id, asg.getLast? with
+  | some n, some a => pure (.paren a sp, tempIdent n)
+  | _, _ => pure (e, e)
+
+/-- `split_member_target` -/
+def splitMemberTarget (left : Node) (sp : Span) : M (Node × Node) :=
+  match left with
+  | .member obj prop msp =>
+    let keySimple := match prop with
+      | .other "Computed" _ ["expression"] [e] => isSimpleTargetPart e
+      | _ => true
+    if !isSimpleTargetPart obj || !keySimple then do
+      let (tobj, oobj) ← if isSimpleTargetPart obj then pure (obj, obj) else hoistTargetPart obj sp
+      let (tprop, oprop) ← match prop with
+        | .other "Computed" csp ["expression"] [e] =>
+          if !isSimpleTargetPart e then do
+            let (tk, ok) ← hoistTargetPart e sp
+            pure (Node.other "Computed" csp ["expression"] [tk], Node.other "Computed" csp ["expression"] [ok])
+          else pure (prop, prop)
+        | _ => pure (prop, prop)
+      pure (.member tobj tprop msp, .member oobj oprop msp)
+    else pure (left, left)
+  | _ => pure (left, left)
+
 /-- `to_dd_assign_expr`.  The `AssignTarget::Pat` arm re-visits the children in the Rust code; a
     compound assignment to a pattern is a syntax error, so that arm is unreachable from the parser and
     is modelled as "not modified". -/
@@ -117,9 +171,10 @@ def toDdAssign (cfg : Config) (e : Node) : M (Option Node) :=
       let right := match r with
         | .bin "+" _ _ _ => Node.paren r r.span
         | _ => r
-      let res ← toDdBinary cfg (.bin "+" left right sp)
+      let (target, operand) ← splitMemberTarget left sp
+      let res ← toDdBinary cfg (.bin "+" operand right sp)
       match res with
-      | some e' => pure (some (.assign "=" left e' sp))
+      | some e' => pure (some (.assign "=" target e' sp))
       | none => pure none
   | _ => pure none
 
